@@ -29,6 +29,15 @@ Theorem C17_src_major_length_is_model : forall l,
   src_major_length l = major_length l.
 Proof. exact src_major_length_eq. Qed.
 
+Theorem C17_src_side_swap_is_model : forall s, src_LineSide_swap s = side_swap s.
+Proof. exact src_side_swap_eq. Qed.
+Theorem C17_src_perpendicular_is_model : forall l, src_Line_perpendicular l = Thickline.perpendicular l.
+Proof. exact src_perpendicular_eq. Qed.
+Theorem C17_src_line_bounding_box_is_model : forall l, src_Line_bounding_box l = with_corners (l_start l) (l_end l).
+Proof. exact src_line_bounding_box_eq. Qed.
+Theorem C17_src_line_translate_is_model : forall l d, src_Line_translate l d = translate_line l d.
+Proof. exact src_line_translate_eq. Qed.
+
 Example C17_src_nonvacuous :
   let p := src_BresenhamParameters_new (L (P 0 0) (P 5 2)) in
   let s1 := src_Bresenham_next (src_Bresenham_new (P 0 0)) p in
